@@ -1032,9 +1032,11 @@ Section CallProofs.
   Context {G M : Type}.
   Variable cvA : G -> G.
   Variable cvR : G -> option M -> G.
+  Variable g_empty : G -> bool.
+  Notation restorable := (@restorable G M g_empty).
   Notation val := (@val G M).
   Notation adapt := (@adapt G M cvA).
-  Notation restore := (@restore G M cvR).
+  Notation restore := (@restore G M cvR g_empty).
   Notation adapt_total := (@adapt_total G M cvA).
   Notation restore_total := (@restore_total G M cvR).
 
@@ -1045,8 +1047,8 @@ Section CallProofs.
     rewrite (H a) by (left; reflexivity). cbn. rewrite IH; auto. intros x Hx. apply H. right. exact Hx.
   Qed.
 
-  Lemma restore1_ok : forall k c g m, can_restore k c = true ->
-    restore1 cvR k (VGraph c g) m = Ok (conv_r cvR k c g m).
+  Lemma restore1_ok : forall k c g m, can_restore g_empty k c g = true ->
+    restore1 cvR g_empty k (VGraph c g) m = Ok (conv_r cvR k c g m).
   Proof. intros k c g m H. unfold restore1, conv_r. destruct k; cbn in *; try rewrite H; reflexivity. Qed.
 
   Lemma adapt1_ok : forall k c g, can_adapt k c = true ->
@@ -1060,27 +1062,27 @@ Section CallProofs.
     - destruct c; cbn [is_opt_exact]; try reflexivity. apply restore1_ok. destruct k; reflexivity.
     - cbn [restore_ind]. apply restore1_ok. exact H.
     - destruct l as [|h t]; [reflexivity|]. cbn [restorable] in H. destruct (is_ind h) eqn:Ei; cbn [orb].
-      + rewrite (map_res_ok (restore_ind cvR k) (restore_elem cvR k)); [reflexivity|].
+      + rewrite (map_res_ok (restore_ind cvR g_empty k) (restore_elem cvR k)); [reflexivity|].
         intros x Hx. eapply forallb_forall in H; [|exact Hx]. apply andb_true_iff in H as [H1 H2].
         destruct x; try discriminate H1. cbn. apply restore1_ok. exact H2.
       + destruct (is_opt_inst k h) eqn:Eo; [|reflexivity].
-        rewrite (map_res_ok (fun x => restore1 cvR k x None) (restore_elem cvR k)); [reflexivity|].
+        rewrite (map_res_ok (fun x => restore1 cvR g_empty k x None) (restore_elem cvR k)); [reflexivity|].
         intros x Hx. eapply forallb_forall in H; [|exact Hx]. apply andb_true_iff in H as [H1 H2].
         destruct x; try discriminate H1. cbn. apply restore1_ok. exact H2.
     - destruct l as [|h t]; [reflexivity|]. cbn [restorable] in H. destruct (is_ind h) eqn:Ei; cbn [orb].
-      + rewrite (map_res_ok (restore_ind cvR k) (restore_elem cvR k)); [reflexivity|].
+      + rewrite (map_res_ok (restore_ind cvR g_empty k) (restore_elem cvR k)); [reflexivity|].
         intros x Hx. eapply forallb_forall in H; [|exact Hx]. apply andb_true_iff in H as [H1 H2].
         destruct x; try discriminate H1. cbn. apply restore1_ok. exact H2.
       + destruct (is_opt_inst k h) eqn:Eo; [|reflexivity].
-        rewrite (map_res_ok (fun x => restore1 cvR k x None) (restore_elem cvR k)); [reflexivity|].
+        rewrite (map_res_ok (fun x => restore1 cvR g_empty k x None) (restore_elem cvR k)); [reflexivity|].
         intros x Hx. eapply forallb_forall in H; [|exact Hx]. apply andb_true_iff in H as [H1 H2].
         destruct x; try discriminate H1. cbn. apply restore1_ok. exact H2.
     - destruct l as [|h t]; [reflexivity|]. cbn [restorable] in H. destruct (is_ind h) eqn:Ei; cbn [orb].
-      + rewrite (map_res_ok (restore_ind cvR k) (restore_elem cvR k)); [reflexivity|].
+      + rewrite (map_res_ok (restore_ind cvR g_empty k) (restore_elem cvR k)); [reflexivity|].
         intros x Hx. eapply forallb_forall in H; [|exact Hx]. apply andb_true_iff in H as [H1 H2].
         destruct x; try discriminate H1. cbn. apply restore1_ok. exact H2.
       + destruct (is_opt_inst k h) eqn:Eo; [|reflexivity].
-        rewrite (map_res_ok (fun x => restore1 cvR k x None) (restore_elem cvR k)); [reflexivity|].
+        rewrite (map_res_ok (fun x => restore1 cvR g_empty k x None) (restore_elem cvR k)); [reflexivity|].
         intros x Hx. eapply forallb_forall in H; [|exact Hx]. apply andb_true_iff in H as [H1 H2].
         destruct x; try discriminate H1. cbn. apply restore1_ok. exact H2.
   Qed.
@@ -1137,7 +1139,7 @@ Section CallProofs.
     forallb (fun kv => restorable k (snd kv)) kw = true ->
     fn (map (restore_total k) args) (map (fun kv => (fst kv, restore_total k (snd kv))) kw) = Ok r ->
     result_ok (adaptable k) r = true ->
-    adapt_wrap cvA cvR k fn args kw = Ok (result_total (adapt_total k) r).
+    adapt_wrap cvA cvR g_empty k fn args kw = Ok (result_total (adapt_total k) r).
   Proof.
     intros k fn args kw r Ha Hk Hf Hr. unfold adapt_wrap.
     rewrite (transform_spec (restore k) (adapt k) (restore_total k)).
@@ -1151,7 +1153,7 @@ Section CallProofs.
     forallb (fun kv => adaptable k (snd kv)) kw = true ->
     fn (map (adapt_total k) args) (map (fun kv => (fst kv, adapt_total k (snd kv))) kw) = Ok r ->
     result_ok (restorable k) r = true ->
-    restore_func cvA cvR k fn args kw = Ok (result_total (restore_total k) r).
+    restore_func cvA cvR g_empty k fn args kw = Ok (result_total (restore_total k) r).
   Proof.
     intros k fn args kw r Ha Hk Hf Hr. unfold restore_func.
     rewrite (transform_spec (adapt k) (restore k) (adapt_total k)).
@@ -1165,7 +1167,7 @@ Section CallProofs.
     forallb (restorable k) args = true ->
     forallb (fun kv => restorable k (snd kv)) kw = true ->
     fn (map (restore_total k) args) (map (fun kv => (fst kv, restore_total k (snd kv))) kw) = Raise ->
-    adapt_wrap cvA cvR k fn args kw = Raise.
+    adapt_wrap cvA cvR g_empty k fn args kw = Raise.
   Proof.
     intros k fn args kw Ha Hk Hf. unfold adapt_wrap.
     rewrite (transform_spec (restore k) (adapt k) (restore_total k)).
@@ -1311,12 +1313,12 @@ Proof.
 Qed.
 
 (* calling what adapt_func returned *)
-Theorem native_called_directly : forall {G M} (cvA : G -> G) (cvR : G -> option M -> G) k den fl c,
-  is_native fl c = true -> call_adapted cvA cvR k den (adapt_func fl c) = den c.
+Theorem native_called_directly : forall {G M} (cvA : G -> G) (cvR : G -> option M -> G) g_empty k den fl c,
+  is_native fl c = true -> call_adapted cvA cvR g_empty k den (adapt_func fl c) = den c.
 Proof. intros. rewrite native_as_is by assumption. reflexivity. Qed.
 
-Theorem domain_called_through_wrapper : forall {G M} (cvA : G -> G) (cvR : G -> option M -> G) k den fl c,
-  is_native fl c = false -> call_adapted cvA cvR k den (adapt_func fl c) = adapt_wrap cvA cvR k (den c).
+Theorem domain_called_through_wrapper : forall {G M} (cvA : G -> G) (cvR : G -> option M -> G) g_empty k den fl c,
+  is_native fl c = false -> call_adapted cvA cvR g_empty k den (adapt_func fl c) = adapt_wrap cvA cvR g_empty k (den c).
 Proof. intros. rewrite not_native_wrapped by assumption. reflexivity. Qed.
 
 (* ==================================================================================== *)
@@ -1667,8 +1669,8 @@ Qed.
 
 (* whatever the wrapped function returns (raw), the model of the wrapper passes holds_call *)
 Theorem model_holds_call : forall k (ad : bool) args kw raw,
-  let fa := if ad then @restore nat nat tidR k else @adapt nat nat tid k in
-  let fr := if ad then @adapt nat nat tid k else @restore nat nat tidR k in
+  let fa := if ad then @restore nat nat tidR tempty k else @adapt nat nat tid k in
+  let fr := if ad then @adapt nat nat tid k else @restore nat nat tidR tempty k in
   holds_call (mkCall k ad args kw
                 (bind (map_kw fa kw) (fun kw' => bind (map_res fa args) (fun a' => Ok (a', kw'))))
                 raw
@@ -1680,21 +1682,21 @@ Proof.
   match goal with |- (if ?c then _ else _) = true => destruct c eqn:Hc end; [|reflexivity].
   apply andb_true_iff in Hc as [Hc Hr]. apply andb_true_iff in Hc as [Ha Hk].
   destruct ad.
-  - assert (Hargs : forall a, In a args -> restore tidR k a = Ok (restore_total tidR k a)).
+  - assert (Hargs : forall a, In a args -> restore tidR tempty k a = Ok (restore_total tidR k a)).
     { intros a Hin. apply restore_total_ok. eapply forallb_forall in Ha; eauto. }
-    assert (Hkw : forall kv, In kv kw -> restore tidR k (snd kv) = Ok (restore_total tidR k (snd kv))).
+    assert (Hkw : forall kv, In kv kw -> restore tidR tempty k (snd kv) = Ok (restore_total tidR k (snd kv))).
     { intros kv Hin. apply restore_total_ok. eapply forallb_forall in Hk; eauto. }
-    rewrite (transform_spec (restore tidR k) (adapt tid k) (restore_total tidR k) _ _ _ Hargs Hkw).
-    rewrite (map_kw_ok _ _ _ Hkw). cbn [bind]. rewrite (map_res_ok (restore tidR k) (restore_total tidR k) args Hargs). cbn [bind].
+    rewrite (transform_spec (restore tidR tempty k) (adapt tid k) (restore_total tidR k) _ _ _ Hargs Hkw).
+    rewrite (map_kw_ok _ _ _ Hkw). cbn [bind]. rewrite (map_res_ok (restore tidR tempty k) (restore_total tidR k) args Hargs). cbn [bind].
     rewrite (transform_result_spec (adapt tid k) (adapt_total tid k) (adaptable k) raw (adapt_total_ok tid k) Hr).
     unfold inner_eqb. cbn [res_eqb fst snd]. rewrite t_vals_eqb_refl, t_kw_eqb_refl, t_val_eqb_refl. reflexivity.
   - assert (Hargs : forall a, In a args -> adapt tid k a = Ok (adapt_total tid k a)).
     { intros a Hin. apply adapt_total_ok. eapply forallb_forall in Ha; eauto. }
     assert (Hkw : forall kv, In kv kw -> adapt tid k (snd kv) = Ok (adapt_total tid k (snd kv))).
     { intros kv Hin. apply adapt_total_ok. eapply forallb_forall in Hk; eauto. }
-    rewrite (transform_spec (adapt tid k) (restore tidR k) (adapt_total tid k) _ _ _ Hargs Hkw).
+    rewrite (transform_spec (adapt tid k) (restore tidR tempty k) (adapt_total tid k) _ _ _ Hargs Hkw).
     rewrite (map_kw_ok _ _ _ Hkw). cbn [bind]. rewrite (map_res_ok (adapt tid k) (adapt_total tid k) args Hargs). cbn [bind].
-    rewrite (transform_result_spec (restore tidR k) (restore_total tidR k) (restorable k) raw (restore_total_ok tidR k) Hr).
+    rewrite (transform_result_spec (restore tidR tempty k) (restore_total tidR k) (restorable tempty k) raw (restore_total_ok tidR tempty k) Hr).
     unfold inner_eqb. cbn [res_eqb fst snd]. rewrite t_vals_eqb_refl, t_kw_eqb_refl, t_val_eqb_refl. reflexivity.
 Qed.
 (* 16. the fuel of add_node is sufficient: the model computes the recursion of           *)
@@ -1759,11 +1761,11 @@ Qed.
 
 (* what the function sees when the outcome of adapt_func is called with one internal graph
    (BaseNetworkxAdapter): the graph itself if native, the restored domain graph otherwise *)
-Theorem session_call_model : forall {G M} (cvA : G -> G) (cvR : G -> option M -> G) den fl q g,
+Theorem session_call_model : forall {G M} (cvA : G -> G) (cvR : G -> option M -> G) g_empty den fl q g,
   (is_native fl q = true ->
-     call_adapted cvA cvR ANx den (adapt_func fl q) [VGraph KOpt g] [] = den q [VGraph KOpt g] []) /\
+     call_adapted cvA cvR g_empty ANx den (adapt_func fl q) [VGraph KOpt g] [] = den q [VGraph KOpt g] []) /\
   (is_native fl q = false ->
-     call_adapted cvA cvR ANx den (adapt_func fl q) [VGraph KOpt g] [] =
+     call_adapted cvA cvR g_empty ANx den (adapt_func fl q) [VGraph KOpt g] [] =
      bind (den q [VGraph KDom (cvR g None)] []) (transform_result (adapt cvA ANx))).
 Proof.
   intros. split; intros H.
